@@ -506,7 +506,7 @@ static int sgn(int x) { return (x > 0) - (x < 0); }
 static int val_cmp(const void * a, const void * b, void * p)
 {
     h_priv_check(p, 2);
-    return (int)*(const unsigned char *)a - (int)*(const unsigned char *)b;
+    return h_cmp_result(*(const unsigned char *)a, *(const unsigned char *)b);
 }
 
 static void ok_events(void)
